@@ -205,12 +205,14 @@ fn diff(a: &BTreeMap<String, Option<String>>, b: &BTreeMap<String, Option<String
     a.iter().filter(|(k, v)| b.get(*k) != Some(*v)).map(|(k, v)| (k.clone(), v.clone(), b.get(k).cloned().flatten())).collect()
 }
 
-fn valid_text(kind: &str, rng: &mut Rng) -> String {
+/// `small`: values that are safe to *execute queries* with (SET/SHOW runs SQL: a huge
+/// target_partitions or batch size would make the engine allocate accordingly)
+fn valid_text(kind: &str, rng: &mut Rng, small: bool) -> String {
     let k = kind.trim_start_matches("(opt ").trim_start_matches("(opts ");
     if k.starts_with("bool") || k.starts_with("sbool") {
         rng.pick(&["true", "false"]).to_string()
     } else if k.starts_with("(uint") || k.starts_with("(umin") || k.starts_with("(par") {
-        rng.pick(&["2", "3", "7", "64", "1024", "65536", "4294967295"]).to_string()
+        if small { rng.pick(&["2", "3", "7", "64"]).to_string() } else { rng.pick(&["2", "3", "7", "64", "1024", "65536", "4294967295"]).to_string() }
     } else if k.starts_with("(int") {
         rng.pick(&["-1", "0", "5", "2147483647"]).to_string()
     } else if k.starts_with("sel") {
@@ -238,7 +240,7 @@ fn valid_text(kind: &str, rng: &mut Rng) -> String {
 
 /// random histories of sets, then: re-setting every key from its reported text is the identity
 fn histories(run: &mut Run, rng: &mut Rng, kinds: &[(String, String, Option<String>)]) {
-    let n = run.budget(60, 1500);
+    let n = run.budget(60, 500);
     for h in 0..n {
         let mut cfg = ConfigOptions::default();
         let steps = 1 + rng.below(12);
@@ -251,7 +253,7 @@ fn histories(run: &mut Run, rng: &mut Rng, kinds: &[(String, String, Option<Stri
             } else {
                 rng.pick(kinds)
             };
-            let t = valid_text(kind, rng);
+            let t = valid_text(kind, rng, false);
             if cfg.set(key, &t).is_ok() {
                 hist.push(format!("{key}={t}"));
             }
@@ -324,7 +326,7 @@ fn set_show(run: &mut Run, rng: &mut Rng, kinds: &[(String, String, Option<Strin
     let per_key = run.budget(2, 12);
     for (key, kind, _) in kinds {
         for _ in 0..per_key {
-            let t = valid_text(kind, rng);
+            let t = valid_text(kind, rng, true);
             let ctx = SessionContext::new_with_config(SessionConfig::new().with_information_schema(true));
             let mut cfg = ctx.copied_config().options().as_ref().clone();
             let r_sql = set_sql(&rt, &ctx, key, &t);
